@@ -476,7 +476,8 @@ def ddict_set_rules(prog, res):
                                    lambda b: const_val(strip_casts(b)) is not None, truth=False)
         noddict = cond_edges(f, lambda c: c.get("k") == "ref" and c.get("rk") == "p" and "ZSTD_DDict" in (c.get("t") or ""), "false")
         # a header that cannot be parsed names no dictionary; the frame is refused by the decoding that follows
-        nohdr = guards.rel_edges(f, lambda a: any(is_call(y, ("ZSTD_getFrameHeader_advanced", "ZSTD_getFrameHeader")) for y in f.walk_resolved(a)),
+        nohdr = guards.rel_edges(f, lambda a: any(is_call(y, ("ZSTD_getFrameHeader_advanced", "ZSTD_getFrameHeader")) for y in f.walk_resolved(a))
+                                 or "c:ZSTD_getFrameHeader_advanced" in f.anchors(a, depth=3),
                                  "==", lambda b: const_val(strip_casts(b)) == 0, truth=False)
         # the selection must reach the load: either the DDict argument of the load is re-read from the context after a call that
         # selects into the context (ZSTD_getDDict(zds) after ZSTD_DCtx_selectFrameDDict), or the variable passed to the load is
@@ -497,6 +498,15 @@ def ddict_set_rules(prog, res):
                   "%s loads a DDict with ZSTD_decompressBegin_usingDDict on a path that did not consult the set of referenced DDicts: in "
                   "multi-DDict mode the frame's own dictionary is only *identified* later (ZSTD_decodeFrameHeader), the ID check passes and "
                   "the frame is decoded with another dictionary's content and tables" % f.name)
+    # the dictionary named by a frame is only known from a COMPLETE header: in the streaming decoder the selection call is reached
+    # only on the edge where the header parser returned 0 (fParams otherwise still describe the previous frame)
+    st = prog.fn("ZSTD_decompressStream")
+    selc = st.call_roots("ZSTD_DCtx_selectFrameDDict")
+    complete = guards.rel_edges(st, lambda a: "c:ZSTD_getFrameHeader_advanced" in st.anchors(a, depth=3), "==", lambda b_: const_val(strip_casts(b_)) == 0, truth=True)
+    res.check(bool(selc) and bool(complete) and st.must_pass(via_edges=complete, targets=selc), R, "ZSTD_decompressStream:select-on-complete-header", st.loc,
+              "the frame's DDict is looked up only once ZSTD_getFrameHeader_advanced returned 0",
+              "ZSTD_decompressStream looks the frame's DDict up before the header is complete: the lookup uses the previous frame's dictID, and a frame "
+              "without dictID is decoded with the wrong referenced dictionary (wrong bytes, no error)")
     # nothing on the frame-decoding path may release a dictionary: its callers (multi-frame loop, legacy dispatch) still hold it
     path, todo = set(), ["ZSTD_decompressMultiFrame", "ZSTD_decompressFrame", "ZSTD_decodeFrameHeader", "ZSTD_decompressContinue"]
     while todo:
@@ -515,7 +525,7 @@ def ddict_set_rules(prog, res):
               "dictionary and decodes the next frame from freed memory" % rel)
     res.check(n >= 2, R, "select-before-load:sites", "lib/decompress/zstd_decompress.c", "%d decoding entry points load a DDict" % n,
               "decoding entry points that load a DDict: %d (expected one-shot and streaming)" % n)
-    res.need(R, 6)
+    res.need(R, 7)
 
 
 def window_covers_whole_dictionary(prog, res):
